@@ -251,8 +251,19 @@ type memoKey struct {
 
 // checkOwn decides linearizability by depth-first search over "minimal" operations (an operation
 // may be linearized next iff no other pending operation returned before it was called), with
-// memoisation on (set of linearized operations, abstract state). budget bounds the visited
-// configurations; linUnknown when exhausted or when the history has more than 128 operations.
+// memoisation on (set of linearized operations, abstract state) and two sound reductions:
+//
+//   - a minimal READ-LIKE operation (Get, Len, Keys, Values, or an Add that reported "present")
+//     whose output agrees with the current state is linearized at once, without alternatives: it
+//     does not change the state and nothing has to precede it, so any linearization that places it
+//     later can be rewritten to place it here;
+//   - values are distinct per program, so an overwritten or removed value can never come back: a
+//     pending Get that expects a value whose (unique) writer is already linearized while the key
+//     holds something else makes the configuration a dead end, as does a Get that expects a value
+//     nobody can have written.
+//
+// budget bounds the visited configurations; linUnknown when exhausted or when the history has more
+// than 128 operations.
 func checkOwn(h []record, budget int) verdict {
 	n := len(h)
 	if n > 128 {
@@ -267,36 +278,87 @@ func checkOwn(h []record, budget int) verdict {
 	for i, j := range idx {
 		rs[i] = h[j]
 	}
+	readLike := make([]bool, n)
+	writer := map[int]int{} // value -> index of the operation that can have stored it
+	for i, r := range rs {
+		switch r.Op.Kind {
+		case opGet, opLen, opKeys, opValues:
+			readLike[i] = true
+		case opAdd:
+			if r.Res.Ok {
+				writer[r.Op.Val] = i
+			} else {
+				readLike[i] = true
+			}
+		case opSet:
+			writer[r.Op.Val] = i
+		}
+	}
+	// a Get of a value that no operation on that key can have stored is never satisfiable
+	for _, r := range rs {
+		if r.Op.Kind == opGet && r.Res.Ok {
+			w, ok := writer[r.Res.Val]
+			if !ok || rs[w].Op.Key != r.Op.Key {
+				return linIllegal
+			}
+		}
+	}
 	memo := make(map[memoKey]struct{})
 	exhausted := false
 
 	var dfs func(done doneSet, cnt int, st mapState) bool
 	dfs = func(done doneSet, cnt int, st mapState) bool {
-		if cnt == n {
-			return true
+		for {
+			if cnt == n {
+				return true
+			}
+			key := memoKey{done, st}
+			if _, seen := memo[key]; seen {
+				return false
+			}
+			if len(memo) >= budget {
+				exhausted = true
+				return false
+			}
+			memo[key] = struct{}{}
+			// earliest return among the pending operations; dead-end test on pending Gets
+			minRet := int64(1<<62 - 1)
+			for i := 0; i < n; i++ {
+				if done.has(i) {
+					continue
+				}
+				if rs[i].Ret < minRet {
+					minRet = rs[i].Ret
+				}
+				if rs[i].Op.Kind == opGet && rs[i].Res.Ok && st[rs[i].Op.Key] != rs[i].Res.Val && done.has(writer[rs[i].Res.Val]) {
+					return false
+				}
+			}
+			// reduction 1: commit a matching minimal read-like operation
+			committed := false
+			for i := 0; i < n && rs[i].Call <= minRet; i++ {
+				if done.has(i) || !readLike[i] {
+					continue
+				}
+				if ok, _ := step(st, rs[i].Op, rs[i].Res); ok {
+					done, cnt, committed = done.with(i), cnt+1, true
+					break
+				}
+			}
+			if !committed {
+				break
+			}
 		}
-		key := memoKey{done, st}
-		if _, seen := memo[key]; seen {
-			return false
-		}
-		if len(memo) >= budget {
-			exhausted = true
-			return false
-		}
-		memo[key] = struct{}{}
-		// earliest return among the pending operations
+		// branch over the minimal state-changing operations
 		minRet := int64(1<<62 - 1)
 		for i := 0; i < n; i++ {
 			if !done.has(i) && rs[i].Ret < minRet {
 				minRet = rs[i].Ret
 			}
 		}
-		for i := 0; i < n; i++ {
-			if done.has(i) {
+		for i := 0; i < n && rs[i].Call <= minRet; i++ {
+			if done.has(i) || readLike[i] {
 				continue
-			}
-			if rs[i].Call > minRet {
-				break // sorted by call: nothing further can be minimal
 			}
 			ok, ns := step(st, rs[i].Op, rs[i].Res)
 			if !ok {
@@ -320,20 +382,106 @@ func checkOwn(h []record, budget int) verdict {
 	return linIllegal
 }
 
-// checkHistory runs both checkers. A disagreement between two definite verdicts is an internal
-// error of the harness (never a finding against the code under test).
-func checkHistory(h []record) (verdict, error) {
-	v1 := checkPorcupine(h, 20*time.Second)
-	v2 := checkOwn(h, 4000000)
-	switch {
-	case v1 == linUnknown:
-		return v2, nil
-	case v2 == linUnknown:
-		return v1, nil
-	case v1 != v2:
-		return linUnknown, fmt.Errorf("checkers disagree: porcupine=%v own=%v", v1, v2)
+// checkNaive is checkOwn without the two reductions (plain search + memoisation). It is only used
+// by the self-test and by -paranoid runs to validate the reductions.
+func checkNaive(h []record, budget int) verdict {
+	n := len(h)
+	if n > 128 {
+		return linUnknown
 	}
-	return v1, nil
+	idx := make([]int, n)
+	for i := range idx {
+		idx[i] = i
+	}
+	sort.Slice(idx, func(a, b int) bool { return h[idx[a]].Call < h[idx[b]].Call })
+	rs := make([]record, n)
+	for i, j := range idx {
+		rs[i] = h[j]
+	}
+	memo := make(map[memoKey]struct{})
+	exhausted := false
+	var dfs func(done doneSet, cnt int, st mapState) bool
+	dfs = func(done doneSet, cnt int, st mapState) bool {
+		if cnt == n {
+			return true
+		}
+		key := memoKey{done, st}
+		if _, seen := memo[key]; seen {
+			return false
+		}
+		if len(memo) >= budget {
+			exhausted = true
+			return false
+		}
+		memo[key] = struct{}{}
+		minRet := int64(1<<62 - 1)
+		for i := 0; i < n; i++ {
+			if !done.has(i) && rs[i].Ret < minRet {
+				minRet = rs[i].Ret
+			}
+		}
+		for i := 0; i < n && rs[i].Call <= minRet; i++ {
+			if done.has(i) {
+				continue
+			}
+			ok, ns := step(st, rs[i].Op, rs[i].Res)
+			if !ok {
+				continue
+			}
+			if dfs(done.with(i), cnt+1, ns) {
+				return true
+			}
+			if exhausted {
+				return false
+			}
+		}
+		return false
+	}
+	if dfs(doneSet{}, 0, mapState{}) {
+		return linOK
+	}
+	if exhausted {
+		return linUnknown
+	}
+	return linIllegal
+}
+
+// checkResult is the combined verdict of one history.
+type checkResult struct {
+	v         verdict
+	own, porc verdict
+	err       error // two definite verdicts disagree: internal error of the harness, never a finding
+}
+
+// checkHistory runs the checkers: the own search (primary, fast thanks to the reductions) and
+// porcupine as an independent second opinion under a short timeout; when the own search says
+// "illegal" porcupine gets a long timeout to confirm. paranoid adds the reduction-free search.
+func checkHistory(h []record, paranoid bool) checkResult {
+	res := checkResult{}
+	res.own = checkOwn(h, 400000)
+	res.porc = checkPorcupine(h, 300*time.Millisecond)
+	if res.own == linIllegal && res.porc == linUnknown {
+		res.porc = checkPorcupine(h, 30*time.Second)
+	}
+	if res.own == linUnknown && res.porc == linUnknown {
+		res.porc = checkPorcupine(h, 10*time.Second)
+	}
+	verdicts := []verdict{res.own, res.porc}
+	if paranoid {
+		verdicts = append(verdicts, checkNaive(h, 400000))
+	}
+	res.v = linUnknown
+	for _, v := range verdicts {
+		if v == linUnknown {
+			continue
+		}
+		if res.v != linUnknown && res.v != v {
+			res.err = fmt.Errorf("checkers disagree: own=%v porcupine=%v all=%v", res.own, res.porc, verdicts)
+			return res
+		}
+		res.v = v
+	}
+	return res
 }
 
 // selfTestCheckers feeds hand-made histories with known verdicts to both checkers.
@@ -386,6 +534,9 @@ func selfTestCheckers() error {
 		}
 		if v := checkOwn(c.h, 100000); v != c.want {
 			return fmt.Errorf("self-test %q: own checker says %v, want %v", c.name, v, c.want)
+		}
+		if v := checkNaive(c.h, 100000); v != c.want {
+			return fmt.Errorf("self-test %q: naive checker says %v, want %v", c.name, v, c.want)
 		}
 	}
 	return nil
